@@ -9,10 +9,12 @@ uninterpreted functions of the child's identity:
 and a yielded child ResourceInfo is an arbitrary record satisfying the child's `yield contract` Y(c, info).
 
 Domain (as the property states): sparse and ratio-1 windows at any level; dense windows (ratio > 1) only over leaf maps
-whose alignment admits them.  For those, "every range of the leaf child is a multiple of the ratio" is an ASSUMED fact
-(it follows from add_window refusing ratio > 2**alignment and add_resource aligning start and size to the map alignment;
-proving that alignment invariant needs divisibility transitivity over symbolic powers of two, which made z3 diverge --
-recorded in DESIGN.md; a runtime monitor checks it on random trees in the thorough tier).
+(`tree_domain`, a REQUIRES on the tree).  That every range of such a leaf is a multiple of the ratio is no longer assumed:
+  * the second layer of the representation invariant (memory_model.wf_align_parts: ranges are multiples of 2**alignment of
+    their map; a window's ratio divides 2**alignment of the window's map) is proved inductive in C02;
+  * a leaf map promises its parent "start and size are multiples of 2**my_alignment, width == my data_width" (obligations
+    `yield-contract:leaf-*` / `find-contract:leaf-*` below);
+  * the parent combines both by a ground instance of the Lean lemma int_mod_trans (lemmas/Align.lean).
 """
 import ast
 import z3
@@ -287,10 +289,22 @@ def verify_decode_address():
 
 # ---- all_resources ---------------------------------------------------------------------------------------------
 def child_yield_contract(c, rho, ci):
-    """Y(c, info): what the (same) contract promises about every ResourceInfo a child map c yields; for dense windows
-    (rho > 1) the child is a leaf whose alignment admits the ratio (ASSUMED: ranges are multiples of rho)."""
+    """Y(c, info): what the (same) contract promises about every ResourceInfo a child map c yields / finds (proved for `self`
+    in verify_all_resources / verify_find_resource: `yield-contract:*`, `find-contract:*`), plus the tree's domain
+    restriction (dense windows only over leaf maps) and the ground lemma instances that turn "multiple of 2**alignment of
+    the child" and "ratio divides 2**alignment of the child" (window geometry, second invariant layer) into "multiple of
+    the ratio"."""
+    a = ALc(c)
     return z3.And(0 <= ci.start, ci.start < ci.end, ci.end <= pow2(AWc(c)), ci.width >= 0,
-                  z3.Implies(rho > 1, z3.And(Leaf(c), ci.width == DWc(c), ci.start % rho == 0, (ci.end - ci.start) % rho == 0)))
+                  z3.Implies(Leaf(c), z3.And(ci.width == DWc(c), mm.Al(ci.start, a), mm.Al(ci.end - ci.start, a))),
+                  z3.Implies(rho > 1, Leaf(c)),                                   # tree_domain (requires)
+                  mm.lemma_dvd_trans(ci.start, a, rho), mm.lemma_dvd_trans(ci.end - ci.start, a, rho))
+
+
+def leaf_definition(ident, v):
+    """Leaf(m) is DEFINED as: m has no windows"""
+    w = z3.Int("lw")
+    return Leaf(ident) == z3.ForAll([w], z3.Not(v.iswin[w]))
 
 
 def loop_all_resources(ex, st_node, path):
@@ -303,6 +317,8 @@ def loop_all_resources(ex, st_node, path):
         body = q.fork()
         body.assume(z3.And(0 <= k, k < v.n))
         body.ghost["iter_idx"] = k
+        if "wf_align_at" in body.ghost:
+            body.assume(body.ghost["wf_align_at"](k))
         item = Tup((Rng(v.S[k], v.E[k], v.T[k]), mm.Ref(v.V[k], cls="MemoryMapChild")))
         for kind, _, q2 in ex.assign(st_node.target, item, body, st_node):
             for kind2, val2, q3 in ex.block(st_node.body, q2):
@@ -323,8 +339,9 @@ def loop_child_infos(ex, st_node, path):
     cs, ce, cw = z3.FreshInt("ci_start"), z3.FreshInt("ci_end"), z3.FreshInt("ci_width")
     ci = InfoV(mm.Ref(z3.FreshInt("ci_res")), PathSym("child_path"), cs, ce, cw)
     body.assume(child_yield_contract(c, v.T[k], ci))
-    # tree well-formedness for this window (established by add_window; see module docstring)
-    body.assume(z3.And(AWc(c) > 0, DWc(c) > 0, v.E[k] - v.S[k] >= pow2(AWc(c)) / v.T[k]))
+    # window geometry: the instance at k of the second invariant layer (in the pre-state, see verify_all_resources), with
+    # the definition of fdiv unfolded at this window
+    body.assume(mm.def_fdiv(pow2(AWc(c)), v.T[k]))
     body.ghost["child_info"] = ci
     body.env = dict(body.env); body.env[st_node.target.id] = info_obj(ci, "child_info")
     for kind2, val2, q3 in ex.block(st_node.body, body):
@@ -351,6 +368,10 @@ def verify_all_resources():
         self_, h = fresh_self(q)
         v = h["view"]
         q.env["self"] = self_
+        # second layer of the representation invariant (proved inductive in C02): used through its instance at the
+        # iteration index (loop_all_resources)
+        q.ghost["wf_align_at"] = h["wf_align_at"]
+        q.assume(leaf_definition(self_.ref, v))
         # the name stored with a window is either None (anonymous) or a Name: two cases
         mm.IdDictModel.window_name_case = named
         outs = ex.run(fn, q)
@@ -384,6 +405,8 @@ def verify_all_resources():
                 fv.add("window-name-prefixed-anonymous-adds-nothing", lab, p.pc, z3.BoolVal(bool(ok)))
             # what this map promises to ITS parent (the same yield contract, for ratio 1 / sparse parents)
             fv.add("yield-contract:in-own-address-space", lab, p.pc, z3.And(0 <= st, st < en, en <= pow2(h["aw"]), wd >= 0))
+            fv.add("yield-contract:leaf-yields-own-width-aligned-to-own-alignment", lab, p.pc,
+                   z3.Implies(Leaf(self_.ref), z3.And(wd == h["dw"], mm.Al(st, h["al"]), mm.Al(en - st, h["al"]))))
         fv.add_engine_obligations(ex)
     mm.IdDictModel.window_name_case = None
     fv.add("cover:yields", "vacuity", [], z3.BoolVal(n_y >= 2))
@@ -425,7 +448,8 @@ def loop_find_windows(ex, st_node, path):
     w = z3.FreshInt("win_id")
     body = path.fork()
     body.assume(v.iswin[w])
-    body.assume(z3.And(AWc(w) > 0, DWc(w) > 0))
+    body.assume(mm.def_fdiv(pow2(AWc(w)), v.wT[w]))
+    body.assume(path.ghost["wf_align_at"](v.idx[w]))    # registered-has-range: the window's entry sits at index idx[w]
     name = mm.NameOf(self_, w) if mm.IdDictModel.window_name_case else NONE
     rng = Rng(v.wS[w], v.wE[w], v.wT[w])
     body.ghost["win_id"] = w; body.ghost["win_rho"] = v.wT[w]
@@ -458,6 +482,11 @@ def verify_find_resource():
         v = h["view"]
         resource = Dyn("resource")      # any object, including ones never added
         q.assume(resource.wf())
+        # second layer of the representation invariant (proved inductive in C02), through its instances at the index of
+        # the resource's own entry (here) and of the visited window's entry (loop_find_windows)
+        q.ghost["wf_align_at"] = h["wf_align_at"]
+        q.assume(h["wf_align_at"](v.idx[resource.ident]))
+        q.assume(leaf_definition(self_.ref, v))
         q.env.update({"self": self_, "resource": resource})
         fv.scope_hints = [v.n == 0, v.n == 1]
         outs = ex.run(fn, q)
@@ -478,6 +507,9 @@ def verify_find_resource():
             g = lambda f: ex.getattr(r, f, p, None)[0][0]
             st, en, wd = ex.toint(g("_start")), ex.toint(g("_end")), ex.toint(g("_width"))
             ci = p.ghost.get("child_info")
+            fv.add("find-contract:in-own-address-space", lab, p.pc, z3.And(0 <= st, st < en, en <= pow2(h["aw"]), wd >= 0))
+            fv.add("find-contract:leaf-result-own-width-aligned-to-own-alignment", lab, p.pc,
+                   z3.Implies(Leaf(self_.ref), z3.And(wd == h["dw"], mm.Al(st, h["al"]), mm.Al(en - st, h["al"]))))
             if ci is None:
                 fv.add("own-resource-found-at-its-recorded-range", lab, p.pc,
                        z3.And(v.isres[rid], st == v.rS[rid], en == v.rE[rid], wd == h["dw"], g("_resource").ident == rid if hasattr(g("_resource"), "ident") else z3.BoolVal(False)))
